@@ -25,7 +25,7 @@ from typing import Any, Callable, Dict, Iterable, List, Optional
 VERIF = os.path.dirname(os.path.dirname(os.path.abspath(__file__)))
 LEAN_DIR = os.path.join(VERIF, "lean")
 REPO = os.environ.get("VERIF_REPO", "/repo")
-EVIDENCE_DIR = os.path.join(VERIF, "evidence")
+EVIDENCE_DIR = os.environ.get("VERIF_EVIDENCE_DIR") or os.path.join(VERIF, "evidence")
 REPLAY_DIR = os.path.join(VERIF, "replays")
 OBLIG_DIR = os.path.join(VERIF, "obligations")
 CORPUS_DIR = os.path.join(VERIF, "corpus")
